@@ -4,6 +4,7 @@ Formats with a Lean container model: FLAC.  The other formats are decided by the
 independent walkers on the real output (harness/walkers.py); see the evidence file.
 -/
 import MutagenModel.Proofs.Container.Flac
+import MutagenModel.Proofs.Container.Id3File
 set_option linter.unusedVariables false
 namespace Mutagen.C02
 open Mutagen Mutagen.FlacC
@@ -22,5 +23,35 @@ theorem flac_save_preserves_foreign (B : Nat) (hB : 0 < B) (L : Layout) (hL : Go
 /-- FLAC: delete keeps the foreign parts -/
 theorem flac_delete_preserves_foreign (L : Layout) : foreign (mdelete L L.blocks) = foreign L :=
   (delete_clears L).2.2.1
+
+/-! ## free-standing ID3 files (MP3, TrueAudio, …): `[ID3v2 tag?][audio][ID3v1 block?]` -/
+
+/-- ID3 save: whatever frames are written, with whatever padding choice and ID3v1 option, the audio
+bytes follow the new tag unchanged — the saved file is `new tag ++ audio ++ ID3v1 block` and
+nothing else (`p` = the padding the callback or the default policy answered) -/
+theorem id3_save_preserves_audio (L : Id3F.Layout) (h : L.OK) (vmaj : Nat) (hvm : vmaj = 3 ∨ vmaj = 4) (frames : Bytes)
+    (pad : PadChoice) (v1opt : Nat) (blk : Bytes) (p : Nat)
+    (hp : getPadding pad ((L.tag.length : Int) - (frames.length + 10 : Nat)) (L.audio.length + L.v1.length) = p)
+    (hfit : frames.length + p < 2 ^ 28) :
+    ∃ newTag, newTag.length = 10 + frames.length + p ∧
+      Id3F.save L.render vmaj frames pad v1opt blk = .ok (newTag ++ L.audio ++ Id3F.newV1 L.v1 v1opt blk) := by
+  obtain ⟨hd, hh, hs⟩ := Id3F.save_layout L h vmaj hvm frames pad v1opt blk p hp hfit
+  obtain ⟨a, b, c, d, h1, _⟩ := Id3F.header_ok vmaj (frames.length + p) hfit
+  rw [h1] at hh; cases hh
+  refine ⟨Id3F.magicID3 ++ [UInt8.ofNat vmaj, 0, 0] ++ [a, b, c, d] ++ frames ++ zeros p, ?_, ?_⟩
+  · simp [Id3F.magicID3]; omega
+  · rw [hs]
+
+/-- ID3 delete leaves exactly the parts it was not asked to remove, byte for byte -/
+theorem id3_delete_preserves_audio (L : Id3F.Layout) (h : L.OK) (dv1 dv2 : Bool) :
+    Id3F.delete L.render dv1 dv2 = .ok ((if dv2 then [] else L.tag) ++ L.audio ++ (if dv1 then [] else L.v1)) :=
+  Id3F.delete_layout L h dv1 dv2
+
+/-- the layout hypotheses are satisfiable: a v2.4 tag with a 2-byte body, 131 audio bytes, a
+128-byte ID3v1 block -/
+example : (Id3F.Layout.mk ([0x49, 0x44, 0x33, 4, 0, 0, 0, 0, 0, 2] ++ [7, 7]) (List.replicate 131 9)
+    ([0x54, 0x41, 0x47] ++ List.replicate 125 0)).OK := by
+  refine ⟨Or.inr ⟨4, [0x49, 0x44, 0x33, 4, 0, 0, 0, 0, 0, 2], [7, 7], by decide, by decide, by decide +kernel, rfl⟩,
+    fun h => by simp at h, Id3F.V1OK_of_long _ _ (by decide +kernel) (by decide +kernel)⟩
 
 end Mutagen.C02
